@@ -2,6 +2,7 @@
 import numpy as np
 from core import OracleResult
 import impl, gens
+from layers.pointwise import layer_pointwise
 from layers.kern import layer_bcker_euler, layer_bcker_euler2d, bc_cases_euler
 
 MODULE = 'Flowdyn.Props.C16'
@@ -18,7 +19,7 @@ TOL = 1e-9
 
 
 def layers(ctx):
-    return [layer_bcker_euler, layer_bcker_euler2d]
+    return [layer_bcker_euler, layer_bcker_euler2d, layer_pointwise]
 
 
 def totals(g, r, u, p):
